@@ -328,12 +328,20 @@ func (g *gen) out(o op, m *emir) int {
 	return o.Out
 }
 
+// zl marks the result of a constant-folded operation on zero-limb zeros: it is the zero-limb zero again.
+func zl(m *emir, zero bool) *emir {
+	if zero {
+		m.zeroL, m.konst, m.of0, m.exact = true, true, true, new(big.Int)
+	}
+	return m
+}
+
 func (g *gen) opAdd(a, b int) int {
 	ea, eb := g.e(a), g.e(b)
 	v := g.red(new(big.Int).Add(ea.val, eb.val))
 	o := newOp("Add")
 	o.A = []int{a, b}
-	return g.out(o, &emir{val: v, konst: ea.konst && eb.konst})
+	return g.out(o, zl(&emir{val: v, konst: ea.konst && eb.konst}, ea.zeroL && eb.zeroL))
 }
 
 func (g *gen) opSub(a, b int) int {
@@ -341,14 +349,14 @@ func (g *gen) opSub(a, b int) int {
 	v := g.red(new(big.Int).Sub(ea.val, eb.val))
 	o := newOp("Sub")
 	o.A = []int{a, b}
-	return g.out(o, &emir{val: v, konst: ea.konst && eb.konst})
+	return g.out(o, zl(&emir{val: v, konst: ea.konst && eb.konst}, ea.zeroL && eb.zeroL))
 }
 
 func (g *gen) opNeg(a int) int {
 	ea := g.e(a)
 	o := newOp("Neg")
 	o.A = []int{a}
-	return g.out(o, &emir{val: g.red(new(big.Int).Neg(ea.val)), konst: ea.konst})
+	return g.out(o, zl(&emir{val: g.red(new(big.Int).Neg(ea.val)), konst: ea.konst}, ea.zeroL))
 }
 
 func (g *gen) opMul(kind string, a, b int) int {
@@ -704,7 +712,7 @@ func (g *gen) step() {
 			return
 		}
 		// not on operands shorter than the modulus (probe "inverse/short-operand")
-		if a := g.pickWhere(func(m *emir) bool { return m.val.Sign() != 0 && !(m.konst && !m.std) }); a >= 0 {
+		if a := g.pickWhere(func(m *emir) bool { return m.val.Sign() != 0 && !(m.konst && !m.std) && !m.wide }); a >= 0 {
 			g.opInv(a)
 		}
 	case k < 74:
